@@ -441,6 +441,20 @@ impl Quotes {
             })
         };
         let after = w.pair_state(pi);
+        // ---- C02 on a pool WITH A HISTORY: the quote's proceeds + fees are the constant-product gross
+        // output on the REPORTED reserves (balance − pending protocol fees), whatever swaps, donations and
+        // collections came before
+        if let (Some(s5), true) = (&sim5, pa.contains(&oa)) {
+            let (io, ia) = if pa[0] == oa { (0usize, 1usize) } else { (1usize, 0usize) };
+            let (ro, ra) = (before[io].saturating_sub(before[2 + io]), before[ia].saturating_sub(before[2 + ia]));
+            if ro + amt > 0 {
+                let gross = cosmwasm_std::Uint256::from(ra) * cosmwasm_std::Uint256::from(amt) / cosmwasm_std::Uint256::from(ro).checked_add(cosmwasm_std::Uint256::from(amt)).unwrap();
+                let parts = cosmwasm_std::Uint256::from(s5[0]) + cosmwasm_std::Uint256::from(s5[2]) + cosmwasm_std::Uint256::from(s5[3]) + cosmwasm_std::Uint256::from(s5[4]);
+                mon.check("C02", "simulation_gross_identity_on_reported_reserves", parts == gross, || {
+                    format!("pair {pi} offer asset {oa} amount {amt}: quote {s5:?} sums to {parts}, reported reserves ({ro},{ra}) give gross {gross}")
+                });
+            }
+        }
         let simtxt = match (&sim, &sim5) {
             (_, Some(x)) => format!("ok:{}", join5(x)),
             (Outcome::Panic, _) => "panic".into(),
